@@ -319,7 +319,20 @@ func (r *Run) writePrecedesSpawns(w fieldAccess, classes []threadClass, all []fi
 		return false
 	}
 	sawGo := false
-	for _, path := range r.Paths(fn) {
+	// the write may sit in a helper split off the function that starts the goroutines (openScheduler() called
+	// from Handle): the order is read off the paths of the function it runs on behalf of, where the helper is
+	// looked into
+	holders := []*Func{fn}
+	for nm := range r.attributed(fn) {
+		if g := r.P.FuncByName(nm); g != nil && g != fn {
+			holders = append(holders, g)
+		}
+	}
+	var allPaths []Path
+	for _, h := range holders {
+		allPaths = append(allPaths, r.Paths(h)...)
+	}
+	for _, path := range allPaths {
 		wi := -1
 		for i, ev := range path.Events {
 			if ev.Kind == EvAssign && ev.Node != nil && ev.Node.Pos() <= w.Pos && w.Pos < ev.Node.End() && wi < 0 {
